@@ -87,13 +87,20 @@ fn gen_rules(r: &mut Rng, host: &str, path_tok: &str) -> Vec<String> {
         2 => rules.push(format!("@@||{}^", host)),
         _ => {}
     }
+    // redirects (resource loaded / missing) must not influence the rewrite
+    match r.below(6) {
+        0 => rules.push(format!("||{}^$redirect=noop.js", host)),
+        1 => rules.push(format!("||{}^$redirect-rule=1x1.gif", host)),
+        2 => rules.push(format!("/{}$redirect=missing.js", path_tok)),
+        _ => {}
+    }
     r.shuffle(&mut rules);
     rules
 }
 
 pub fn run(ctx: &mut Ctx) {
     let sub = "removeparam";
-    let cases = ctx.n(600_000, 8_000_000);
+    let cases = ctx.n(600_000, 60_000_000);
     let resdefs = gen::standard_resources();
     let res = ResModel { defs: &resdefs };
     for idx in 0..cases {
